@@ -3,6 +3,7 @@ package prompting
 import (
 	"errors"
 	"runtime"
+	"time"
 )
 
 // C32, registry half: a registered prompter is never invoked concurrently with
@@ -14,6 +15,10 @@ type vtPrompter struct {
 	calls        int
 	unregistered bool
 	fail         bool
+	// stall: the first invocation does not return until the user reacts
+	// (release is closed) - a prompt can stay open for a long time
+	stall   bool
+	release chan struct{}
 }
 
 func (p *vtPrompter) enter() {
@@ -23,6 +28,9 @@ func (p *vtPrompter) enter() {
 	vAssert(p.inside == 1, "prompter is never invoked concurrently with itself")
 	// the invocation takes time: anything may be scheduled in the middle of it
 	runtime.Gosched()
+	if p.stall && p.calls == 1 {
+		<-p.release
+	}
 	vAssert(p.inside == 1, "prompter is never invoked concurrently with itself")
 	p.inside--
 }
@@ -44,7 +52,16 @@ func (p *vtPrompter) Prompt(m string) (string, error) {
 }
 
 func VerifC32Registry() {
-	p := &vtPrompter{fail: vChoose(2) == 1}
+	p := &vtPrompter{fail: vChoose(2) == 1, stall: vChoose(2) == 1, release: make(chan struct{})}
+	if p.stall {
+		vCover("an invocation stays open for a long time")
+		// the user reacts eventually (this timer fires only once everybody else
+		// is waiting, and after any shorter timer the code under test may set)
+		go func() {
+			time.Sleep(24 * time.Hour)
+			close(p.release)
+		}()
+	}
 	const id = "pmpt_model"
 	if err := RegisterPrompterWithIdentifier(id, p); err != nil {
 		vFail("registration of a fresh identifier failed")
